@@ -18,6 +18,8 @@ pub enum Tok {
     Start(usize),
     End,
     Poison,
+    NoneT,
+    SomeT,
 }
 
 pub struct Tokens {
@@ -124,6 +126,23 @@ impl TokVal for P24 {
         o.push(Tok::U64(self.a));
         o.push(Tok::U64(self.b));
         o.push(Tok::U64(self.c));
+        o.push(Tok::End);
+    }
+}
+impl TokVal for Option<u32> {
+    fn push_to(&self, o: &mut Tokens) {
+        match self {
+            None => o.push(Tok::NoneT),
+            Some(v) => {
+                o.push(Tok::SomeT);
+                o.push(Tok::U32(*v));
+            }
+        }
+    }
+}
+impl TokVal for ZstA8 {
+    fn push_to(&self, o: &mut Tokens) {
+        o.push(Tok::Start(0));
         o.push(Tok::End);
     }
 }
@@ -245,10 +264,14 @@ impl<'a> serde::Serializer for Ser<'a> {
     ser_unsupported! {
         serialize_bool(bool); serialize_i8(i8); serialize_i16(i16); serialize_i32(i32); serialize_i64(i64);
         serialize_f32(f32); serialize_f64(f64); serialize_char(char); serialize_str(&str); serialize_bytes(&[u8]);
-        serialize_none();
     }
-    fn serialize_some<T: ?Sized + serde::Serialize>(self, _v: &T) -> Result<(), FmtErr> {
-        Err(FmtErr)
+    fn serialize_none(self) -> Result<(), FmtErr> {
+        self.out.push(Tok::NoneT);
+        Ok(())
+    }
+    fn serialize_some<T: ?Sized + serde::Serialize>(self, v: &T) -> Result<(), FmtErr> {
+        self.out.push(Tok::SomeT);
+        v.serialize(self)
     }
     fn serialize_unit_variant(self, _n: &'static str, _i: u32, _v: &'static str) -> Result<(), FmtErr> {
         Err(FmtErr)
@@ -444,8 +467,15 @@ impl<'de, 'd, 'a> serde::Deserializer<'de> for &'d De<'a> {
     de_unsupported! {
         deserialize_any deserialize_bool deserialize_i8 deserialize_i16 deserialize_i32 deserialize_i64
         deserialize_f32 deserialize_f64 deserialize_char deserialize_str deserialize_string deserialize_bytes
-        deserialize_byte_buf deserialize_option deserialize_seq deserialize_map deserialize_identifier
+        deserialize_byte_buf deserialize_seq deserialize_map deserialize_identifier
         deserialize_ignored_any
+    }
+    fn deserialize_option<V: Visitor<'de>>(self, v: V) -> Result<V::Value, FmtErr> {
+        match self.next() {
+            Tok::NoneT => v.visit_none(),
+            Tok::SomeT => v.visit_some(self),
+            _ => Err(FmtErr),
+        }
     }
     fn deserialize_enum<V: Visitor<'de>>(self, _n: &'static str, _vs: &'static [&'static str], _v: V) -> Result<V::Value, FmtErr> {
         Err(FmtErr)
